@@ -2,13 +2,15 @@ package sym
 
 import (
 	"crypto/sha256"
-	"path/filepath"
 	"fmt"
 	"go/types"
 	"math/big"
 	"math/bits"
+	"path/filepath"
 	"regexp"
 	"strings"
+
+	"golang.org/x/tools/go/ssa"
 )
 
 const rt = "embedded/verifrt."
@@ -17,27 +19,27 @@ var intrinsics map[string]intrinsic
 
 func init() {
 	intrinsics = map[string]intrinsic{
-		rt + "U64":       func(ex *Exec, c *callCtx) (Value, bool) { return ex.nondet(c, "u64", 64), true },
-		rt + "I64":       func(ex *Exec, c *callCtx) (Value, bool) { return ex.nondet(c, "i64", 64), true },
-		rt + "Int":       func(ex *Exec, c *callCtx) (Value, bool) { return ex.nondet(c, "int", 64), true },
-		rt + "U32":       func(ex *Exec, c *callCtx) (Value, bool) { return ex.nondet(c, "u32", 32), true },
-		rt + "U16":       func(ex *Exec, c *callCtx) (Value, bool) { return ex.nondet(c, "u16", 16), true },
-		rt + "Byte":      func(ex *Exec, c *callCtx) (Value, bool) { return ex.nondet(c, "byte", 8), true },
-		rt + "Bool":      func(ex *Exec, c *callCtx) (Value, bool) { return ex.nondet(c, "bool", 0), true },
-		rt + "Bytes":     inBytes,
-		rt + "BytesUpTo": inBytesUpTo,
-		rt + "Digest":    inDigest,
-		rt + "Digests":   func(ex *Exec, c *callCtx) (Value, bool) { return inDigests(ex, c, false) },
+		rt + "U64":         func(ex *Exec, c *callCtx) (Value, bool) { return ex.nondet(c, "u64", 64), true },
+		rt + "I64":         func(ex *Exec, c *callCtx) (Value, bool) { return ex.nondet(c, "i64", 64), true },
+		rt + "Int":         func(ex *Exec, c *callCtx) (Value, bool) { return ex.nondet(c, "int", 64), true },
+		rt + "U32":         func(ex *Exec, c *callCtx) (Value, bool) { return ex.nondet(c, "u32", 32), true },
+		rt + "U16":         func(ex *Exec, c *callCtx) (Value, bool) { return ex.nondet(c, "u16", 16), true },
+		rt + "Byte":        func(ex *Exec, c *callCtx) (Value, bool) { return ex.nondet(c, "byte", 8), true },
+		rt + "Bool":        func(ex *Exec, c *callCtx) (Value, bool) { return ex.nondet(c, "bool", 0), true },
+		rt + "Bytes":       inBytes,
+		rt + "BytesUpTo":   inBytesUpTo,
+		rt + "Digest":      inDigest,
+		rt + "Digests":     func(ex *Exec, c *callCtx) (Value, bool) { return inDigests(ex, c, false) },
 		rt + "DigestsUpTo": func(ex *Exec, c *callCtx) (Value, bool) { return inDigests(ex, c, true) },
-		rt + "Assume":    inAssume,
-		rt + "Assert":    inAssert,
-		rt + "Reach":     inReach,
-		rt + "Event":     inEvent,
-		rt + "Param":     inParam,
-		rt + "Skip":      func(ex *Exec, c *callCtx) (Value, bool) { c.s.end(Skipped, "skip"); return nil, false },
-		rt + "Stub":      inStub,
-		rt + "Merge":     inMerge,
-		rt + "Symbolic":  func(ex *Exec, c *callCtx) (Value, bool) { return ex.tt.True, true },
+		rt + "Assume":      inAssume,
+		rt + "Assert":      inAssert,
+		rt + "Reach":       inReach,
+		rt + "Event":       inEvent,
+		rt + "Param":       inParam,
+		rt + "Skip":        func(ex *Exec, c *callCtx) (Value, bool) { c.s.end(Skipped, "skip"); return nil, false },
+		rt + "Stub":        inStub,
+		rt + "Merge":       inMerge,
+		rt + "Symbolic":    func(ex *Exec, c *callCtx) (Value, bool) { return ex.tt.True, true },
 		rt + "AllocLimit": func(ex *Exec, c *callCtx) (Value, bool) {
 			ex.AllocLimit = int(c.args[0].(*Term).U64())
 			return nil, true
@@ -70,15 +72,15 @@ func init() {
 			return ex.tt.FP(OpFPIsNaN, 0, c.args[0].(*Term)), true
 		},
 
-		"math/bits.Len64":          func(ex *Exec, c *callCtx) (Value, bool) { return ex.bitsLen(c.args[0].(*Term)), true },
-		"math/bits.Len":            func(ex *Exec, c *callCtx) (Value, bool) { return ex.bitsLen(c.args[0].(*Term)), true },
-		"math/bits.Len32":          func(ex *Exec, c *callCtx) (Value, bool) { return ex.bitsLen(c.args[0].(*Term)), true },
-		"math/bits.Len8":           func(ex *Exec, c *callCtx) (Value, bool) { return ex.bitsLen(c.args[0].(*Term)), true },
-		"math/bits.Len16":          func(ex *Exec, c *callCtx) (Value, bool) { return ex.bitsLen(c.args[0].(*Term)), true },
-		"math/bits.OnesCount64":    func(ex *Exec, c *callCtx) (Value, bool) { return ex.onesCount(c.args[0].(*Term)), true },
-		"math/bits.OnesCount":      func(ex *Exec, c *callCtx) (Value, bool) { return ex.onesCount(c.args[0].(*Term)), true },
+		"math/bits.Len64":           func(ex *Exec, c *callCtx) (Value, bool) { return ex.bitsLen(c.args[0].(*Term)), true },
+		"math/bits.Len":             func(ex *Exec, c *callCtx) (Value, bool) { return ex.bitsLen(c.args[0].(*Term)), true },
+		"math/bits.Len32":           func(ex *Exec, c *callCtx) (Value, bool) { return ex.bitsLen(c.args[0].(*Term)), true },
+		"math/bits.Len8":            func(ex *Exec, c *callCtx) (Value, bool) { return ex.bitsLen(c.args[0].(*Term)), true },
+		"math/bits.Len16":           func(ex *Exec, c *callCtx) (Value, bool) { return ex.bitsLen(c.args[0].(*Term)), true },
+		"math/bits.OnesCount64":     func(ex *Exec, c *callCtx) (Value, bool) { return ex.onesCount(c.args[0].(*Term)), true },
+		"math/bits.OnesCount":       func(ex *Exec, c *callCtx) (Value, bool) { return ex.onesCount(c.args[0].(*Term)), true },
 		"math/bits.TrailingZeros64": func(ex *Exec, c *callCtx) (Value, bool) { return ex.trailingZeros(c.args[0].(*Term)), true },
-		"math/bits.TrailingZeros":  func(ex *Exec, c *callCtx) (Value, bool) { return ex.trailingZeros(c.args[0].(*Term)), true },
+		"math/bits.TrailingZeros":   func(ex *Exec, c *callCtx) (Value, bool) { return ex.trailingZeros(c.args[0].(*Term)), true },
 
 		"(*sync.Mutex).Lock":      inLock("lock"),
 		"(*sync.Mutex).Unlock":    inLock("unlock"),
@@ -96,25 +98,25 @@ func init() {
 		"runtime.KeepAlive":       inNop,
 		"runtime.SetFinalizer":    inNop,
 
-		"sync/atomic.LoadInt32":   inAtomicLoad,
-		"sync/atomic.LoadInt64":   inAtomicLoad,
-		"sync/atomic.LoadUint32":  inAtomicLoad,
-		"sync/atomic.LoadUint64":  inAtomicLoad,
-		"sync/atomic.LoadPointer": inAtomicLoad,
-		"sync/atomic.StoreInt32":  inAtomicStore,
-		"sync/atomic.StoreInt64":  inAtomicStore,
-		"sync/atomic.StoreUint32": inAtomicStore,
-		"sync/atomic.StoreUint64": inAtomicStore,
-		"sync/atomic.AddInt32":    inAtomicAdd,
-		"sync/atomic.AddInt64":    inAtomicAdd,
-		"sync/atomic.AddUint32":   inAtomicAdd,
-		"sync/atomic.AddUint64":   inAtomicAdd,
+		"sync/atomic.LoadInt32":            inAtomicLoad,
+		"sync/atomic.LoadInt64":            inAtomicLoad,
+		"sync/atomic.LoadUint32":           inAtomicLoad,
+		"sync/atomic.LoadUint64":           inAtomicLoad,
+		"sync/atomic.LoadPointer":          inAtomicLoad,
+		"sync/atomic.StoreInt32":           inAtomicStore,
+		"sync/atomic.StoreInt64":           inAtomicStore,
+		"sync/atomic.StoreUint32":          inAtomicStore,
+		"sync/atomic.StoreUint64":          inAtomicStore,
+		"sync/atomic.AddInt32":             inAtomicAdd,
+		"sync/atomic.AddInt64":             inAtomicAdd,
+		"sync/atomic.AddUint32":            inAtomicAdd,
+		"sync/atomic.AddUint64":            inAtomicAdd,
 		"sync/atomic.CompareAndSwapInt32":  inAtomicCAS,
 		"sync/atomic.CompareAndSwapInt64":  inAtomicCAS,
 		"sync/atomic.CompareAndSwapUint32": inAtomicCAS,
 		"sync/atomic.CompareAndSwapUint64": inAtomicCAS,
 
-		"path/filepath.Join": inFilepathJoin,
+		"path/filepath.Join":   inFilepathJoin,
 		"context.WithTimeout":  inCtxDerive,
 		"context.WithDeadline": inCtxDerive,
 		"context.WithCancel":   inCtxDerive,
@@ -128,13 +130,13 @@ func init() {
 			}
 			return Iface{}, true
 		},
-		rt + "NewFile":          inNewFile,
-		"(*os.File).Write":      inFileWrite,
-		"(*os.File).ReadAt":     inFileReadAt,
-		"(*os.File).Seek":       inFileSeek,
-		"(*os.File).Sync":       func(ex *Exec, c *callCtx) (Value, bool) { ex.osFileOf(c); return Iface{}, true },
-		"(*os.File).Close":      func(ex *Exec, c *callCtx) (Value, bool) { ex.osFileOf(c); return Iface{}, true },
-		rt + "TempDir": func(ex *Exec, c *callCtx) (Value, bool) { return ex.strConst("/verifrt-vfs"), true },
+		rt + "NewFile":      inNewFile,
+		"(*os.File).Write":  inFileWrite,
+		"(*os.File).ReadAt": inFileReadAt,
+		"(*os.File).Seek":   inFileSeek,
+		"(*os.File).Sync":   func(ex *Exec, c *callCtx) (Value, bool) { ex.osFileOf(c); return Iface{}, true },
+		"(*os.File).Close":  func(ex *Exec, c *callCtx) (Value, bool) { ex.osFileOf(c); return Iface{}, true },
+		rt + "TempDir":      func(ex *Exec, c *callCtx) (Value, bool) { return ex.strConst("/verifrt-vfs"), true },
 		rt + "TouchFile": func(ex *Exec, c *callCtx) (Value, bool) {
 			p, ok := strConcrete(c.args[0].(Str))
 			if !ok {
@@ -173,11 +175,13 @@ func init() {
 			}
 			return Str{B: ex.sliceElems(c.s, sl, n)}, true
 		},
-		"fmt.Errorf":  inErrorf,
-		"fmt.Sprintf": inSprintf,
-		"fmt.Sprint":  inSprintf,
-		"errors.Is":   inErrorsIs,
-		"errors.As":   func(ex *Exec, c *callCtx) (Value, bool) { unsupported("errors.As"); return nil, false },
+		"sort.Slice":       inSortSlice,
+		"sort.SliceStable": inSortSlice,
+		"fmt.Errorf":       inErrorf,
+		"fmt.Sprintf":      inSprintf,
+		"fmt.Sprint":       inSprintf,
+		"errors.Is":        inErrorsIs,
+		"errors.As":        func(ex *Exec, c *callCtx) (Value, bool) { unsupported("errors.As"); return nil, false },
 	}
 }
 
@@ -1137,4 +1141,28 @@ func inFileSeek(ex *Exec, c *callCtx) (Value, bool) {
 	f.pos = off
 	c.s.setOSFile(obj, f)
 	return Tuple{ex.tt.BV(uint64(off), 64), Iface{}}, true
+}
+
+// sort.Slice / sort.SliceStable go through reflection in the library; here the (stable)
+// insertion sort of verifrt.SortSlice runs instead, with the caller's less function and an
+// engine-provided swap of the slice's elements.
+func inSortSlice(ex *Exec, c *callCtx) (Value, bool) {
+	x, ok := c.args[0].(Iface)
+	if !ok {
+		unsupported("sort.Slice argument")
+	}
+	sl, ok := x.V.(Slice)
+	if !ok {
+		unsupported("sort.Slice of %T", x.V)
+	}
+	fn := ex.prog.Harness("embedded/verifrt.SortSlice")
+	if fn == nil {
+		unsupported("verifrt.SortSlice not loaded")
+	}
+	var dst ssa.Value
+	if v, ok := c.fr.block.Instrs[c.fr.ip].(ssa.Value); ok {
+		dst = v
+	}
+	ex.invoke(c.s, c.fr, fn, []Value{sl.Len, c.args[1], &Closure{Stub: "swap", Bindings: []Value{sl}}}, nil, dst, c.pend, c.call)
+	return nil, false
 }
